@@ -338,7 +338,8 @@ fn contents_shared(doc: &Document, page: ObjectId) -> bool {
         || doc.page_iter().fold(0usize, |n, p| if p == page { n + 1 } else { n }) > 1
 }
 
-/// the page has no Resources entry of its own but an ancestor provides one
+/// the page has no Resources entry of its own but an ancestor provides one (class of the repaired finding C11-resources-shadow)
+#[allow(dead_code)]
 fn inherits_only(doc: &Document, page: ObjectId) -> bool {
     match doc.get_dictionary(page) {
         Ok(d) => !d.has(b"Resources") && eff_resources(doc, page).map(|m| !m.is_empty()).unwrap_or(false),
@@ -719,7 +720,28 @@ fn main() {
                 Op::Gocr(p) | Op::AddX(p, _, _) | Op::AddGs(p, _, _) => {
                     ck.req(n, before.trailer == doc.trailer && before.max_id == doc.max_id, || "a resource operation changed trailer or max_id".into());
                     let ch = changed(&before, &doc);
-                    ck.req(n, ch.len() <= 1 && before.objects.len() == doc.objects.len(), || format!("a resource operation on {:?} changed the objects {:?}", p, ch));
+                    // frame: at most the page (it may get its own Resources entry) and ONE object holding the resource / category
+                    // dictionary change, and each changes only by gaining or updating the entries the call is about
+                    ck.req(n, ch.len() <= 2 && before.objects.len() == doc.objects.len(), || format!("a resource operation on {:?} changed the objects {:?}", p, ch));
+                    let (cat, nm): (&[u8], &[u8]) = match op {
+                        Op::AddX(_, nm, _) => (b"XObject", nm.as_slice()),
+                        Op::AddGs(_, nm, _) => (b"ExtGState", nm.as_slice()),
+                        _ => (b"Resources", b"Resources"),
+                    };
+                    let pt = target(&before, *p);
+                    for k in &ch {
+                        let ok = match (before.objects.get(k), doc.objects.get(k)) {
+                            (Some(Object::Dictionary(d0)), Some(Object::Dictionary(d1))) => {
+                                let may = |key: &[u8]| key == cat || key == nm || (*k == pt && key == b"Resources");
+                                d0.iter().all(|(key, v)| may(key) || d1.get(key).ok() == Some(v)) && d1.iter().all(|(key, _)| may(key) || d0.has(key))
+                            }
+                            _ => false,
+                        };
+                        ck.req(n, ok, || format!("a resource operation on {:?} altered {:?} beyond the entries it is about", p, k));
+                    }
+                    if ch.len() == 2 {
+                        ck.req(n, ch.contains(&pt), || format!("a resource operation on {:?} changed two objects {:?}, neither is the page", p, ch));
+                    }
                     ck.req(n, page_contents(&before) == page_contents(&doc), || "a resource operation changed the content of a page".into());
                     // no page loses a resource it could use before
                     let set: Option<(Vec<u8>, Vec<u8>)> = match op {
@@ -735,7 +757,7 @@ fn main() {
                                 let _ = v;
                                 let kept = r1.contains_key(k);
                                 if !kept {
-                                    let tag = if inherits_only(&before, *p) { "[C11-resources-shadow] " } else { "" };
+                                    let tag = "";      // C11-resources-shadow is repaired: losing an inherited resource is a violation again
                                     ck.req(n, false, || format!("{}after the resource operation on {:?}, page {:?} can no longer use /{} /{}", tag, p, q,
                                                                  String::from_utf8_lossy(&k.0), String::from_utf8_lossy(&k.1)));
                                     break;
